@@ -15,6 +15,10 @@ C = {
    text="The generator code (GenerateAndAdvance, Intn, DeriveEntropyFromRequest) is translated from the Go source to Lean (BitVec 64, wrap-around semantics) on every run and the theorems are re-proved against it: Intn in [0,n) for every state and n>0; every response interval = configured + d s with d=0 or 1<=d<=max; min interval follows iff configured; modified iff first draw below the probability threshold; uniformity reduced to a proved bijection (partial). The hook around it is a hand model tied by differential runs incl. xorshift-inverted edge states; a property oracle judges every implementation output.",
    note="trusted: Lean kernel + 3 standard axioms; the go/ast translator harness/tr; float32 compare exactness argument; Duration overflow excluded by hypothesis; cardinality form of the 'configured fraction' claim is not formalised (bijection proved instead)",
    tech="Lean 4 proof over a model regenerated from source by a translator (BitVec 64) + differential correspondence + property oracle on every implementation output"),
+ "C20": dict(
+   text="The four Config.Validate methods and their default constants are translated from the Go source to Lean on every run; theorems re-proved against them: every governed timeout/interval/limit is positive after validation, 0 < shard_count <= MaxInt/2 (so doubling cannot overflow), valid configurations are preserved unchanged, validation is idempotent — for all field values. Unknown driver names, out-of-range hook options and bad Redis URLs are refused (model + theorems). Tied by differential runs of the real Validate on boundary products, registry lookups, Redis URLs, stores built from out-of-range configs and then used, plus a source fact: no constructor touches the unvalidated parameter after Validate().",
+   note="trusted: Lean kernel + 3 standard axioms; translator harness/tr (checks that each if reads only the receiver and each field is defaulted once); fact extractor; yaml decoding, url.Parse and strconv.Atoi are modelled/passed in, not verified; request-level caps (numwant, scrape size) are proved under C02/C06",
+   tech="Lean 4 proof over a model regenerated from source by a translator + differential correspondence + go/ast source fact"),
 }
 
 def main():
